@@ -323,8 +323,8 @@ def validate(run, wd, models, timeout, counts=(), keylens=()):
     if len(lines) != len(images):
         raise vlib.Inconclusive("harness reported %d lines for %d images" % (len(lines), len(images)))
     res = vlib.tlc_or_die(wd, "TraceC15", timeout=timeout, xmx="12g")
-    # one state per line (each of the 16 shards has a start state even when the trace is shorter) + the initial state
-    expect = max(len(lines), 16) + 1
+    # one state per line + the initial state
+    expect = len(lines) + 1
     if res.distinct != expect:
         raise vlib.Inconclusive("TraceC15: TLC visited %d states, expected %d (lines skipped?)\n%s" % (res.distinct, expect, res.out[-2000:]))
     run.add_model(res)
@@ -338,6 +338,9 @@ def validate(run, wd, models, timeout, counts=(), keylens=()):
     if set(parts) != bad:
         raise vlib.Inconclusive("BADLINE and BADPART output disagree: %s vs %s" % (sorted(bad)[:10], sorted(parts)[:10]))
     run.cov["traces_validated_against_impl"] += len(lines) - len(bad)
+    if len(lines) >= 100:
+        from cryptocommon import binding_selftest
+        binding_selftest(run, wd, "TraceC15", trace, timeout)
     return images, lines, parts
 
 
